@@ -8,7 +8,7 @@ from inspect import isclass
 
 import numpy as np
 from .struct import Struct
-from .typeutils import context_default
+from .typeutils import context_default, dispatch_arg
 from .ref import Ref
 
 
@@ -315,6 +315,9 @@ class HybridClass(metaclass=MetaHybridClass):
                 # python-side name
                 pyname = obj._rename.get(field.name, field.name)
                 default = field.get_default()
+                if field.default_factory is not None:
+                    # a factory returns plain data (a list, a number)
+                    default = dispatch_arg(field.ftype, default)
                 if hasattr(field.ftype, "_itemtype") and hasattr(
                     field.ftype._itemtype, "_dtype"
                 ):
